@@ -22,6 +22,7 @@ RULE = ("for every composition of length <= Lc (quick 10, thorough 12) the delta
         "of length <= Lp (quick 9, thorough 11) with a random spelling; random class sequences (quick <=120, thorough "
         "<=400 residues); hill-climbed arrangements for compositions with >= 18 neutrals; anchors. distinct = distinct charge pattern; non-trivial = deltaMax != 0 (kappa defined)")
 RULE += ("; added after the mutation rounds: ordered groups of compositions whose decimal digit strings coincide analysed one after another; long almost uncharged chains; the first cases of every shard are judged again at its end")
+RULE += ("; round 7: minority blocks of 1-10 residues in majority runs 5-12 times longer with 0-2 neutrals; chains of more than 1000 residues sharing both ends")
 EXHAUSTIVE = {"quick": False, "thorough": False}
 EXHAUSTIVE_NOTE = {"quick": "all patterns of length <= 9; maximisers of all compositions of length <= 10",
                    "thorough": "all patterns of length <= 11; maximisers of all compositions of length <= 12"}
@@ -34,7 +35,7 @@ ASSUMPTIONS = [
     "finding in three regimes (no neutrals / one charge type / both charges with < 18 neutrals); in the >= 18 "
     "neutral regime it would be reported as a violation",
 ]
-REQUIRED = {"all": ["longer_than_1000", "clamp_observed", "sentinel_observed", "ratio_in_unit_interval", "cached_dmax_path",
+REQUIRED = {"all": ["longer_than_1000", "minority_block_in_a_long_majority_run", "clamp_observed", "sentinel_observed", "ratio_in_unit_interval", "cached_dmax_path",
                     "maximiser_cases", "hill_climb_cases_ge18_neutrals", "ordered_composition_cases", "sweep_compositions", "unbalanced_composition_cases"]}
 LC = {"quick": 10, "thorough": 12}
 LP = {"quick": 9, "thorough": 11}
@@ -69,6 +70,13 @@ def cases(tier, seed):
     for j in range(60 if tier == "quick" else 500):
         few, many, z = rngu.randint(1, 3), rngu.randint(8, 30), rngu.randint(1, 17)
         yield {"k": "unbalanced", "c": [few, many, z] if j % 2 else [many, few, z], "o": rngu.randrange(1 << 30)}
+    # no (or almost no) neutral residues, a minority block of 1-10 and a majority run 5-12 times longer: where the delta profile
+    # of the sliding block has a dip before its maximum
+    for j in range(40 if tier == "quick" else 300):
+        few = rngu.randint(1, 10)
+        many = min(75, few * rngu.randint(5, 12) + rngu.randint(0, 4))
+        z = rngu.choice([0, 0, 0, 1, 2])
+        yield {"k": "unbalanced", "c": [few, many, z] if j % 2 else [many, few, z], "o": rngu.randrange(1 << 30), "long_majority": 1}
     # hundreds of distinct compositions in ONE process, then the first ones again (new objects, new spellings):
     # delta-max must not depend on how many other compositions were analysed in between
     yield {"k": "sweep", "count": 420 if tier == "quick" else 1500, "again": 80}
@@ -239,6 +247,8 @@ def judge(case, rep, S):
         p, n, z = case["c"]
         rng = gen.sub_rng(case["o"], "unbalanced")
         rep.cnt("unbalanced_composition_cases")
+        if case.get("long_majority"):
+            rep.cnt("minority_block_in_a_long_majority_run")
         zs = rng.randint(0, z)
         blocky = [0] * zs + [1] * p + [-1] * n + [0] * (z - zs)
         mixed = list(blocky)
